@@ -95,6 +95,46 @@ CLAIMED = {
             "Trusted: Lean kernel + Mathlib; epsilon = inf is not expressible over R (covered by correspondence); that the "
             "fold on doubles stays in range, almost-sure termination of rejection loops and Bingham's unit norm on doubles "
             "are observed, not proved; _find_scale and Bingham not modelled.", "§6 C12"),
+    "C11": ("Lean 4 proof: completeness of the warning-guard table (decide +kernel, lifted to any number of dimensions) + model "
+            "of the warnings filter + table regenerated from the Python AST on every run + exhaustive run-time matrix",
+            "Machine-checked: for every entry point in the table (24: 15 tools, 8 estimators, covariance_eig) and every "
+            "subset of omitted domain parameters, deriving a parameter from the data implies a PrivacyLeakWarning "
+            "(warn_complete; histogramdd/2d for any number of dimensions, list or tuple ranges, partial ranges, mixed bins); "
+            "under the `always` filter action the n-th occurrence is delivered like the first, under `once`/`default` it is "
+            "not. The table is regenerated from /repo's AST on every run and proved equal to the hand-written one "
+            "(gen_eq_hand) and complete (gen_complete). The property is checked exhaustively on the implementation: every "
+            "entry point x every subset of omitted parameters x two consecutive calls in a fresh interpreter with the "
+            "library's own warning filter in force.",
+            "Trusted: Lean kernel; the guard extractor (harness/translate/guards.py); numpy's internal histogram range "
+            "fallback is hand-stated and checked on every run; Python's warnings machinery.", "§6 C11"),
+    "C13": ("Lean 4 proof: validation chains accept exactly the documented ranges over a Python value domain (iff theorems for "
+            "all 21 mechanism classes, accountant, Budget, check_bounds) + chains regenerated from the AST + result-kind "
+            "correspondence over the catalogue",
+            "Machine-checked over the whole value domain (non-numeric, complex, bool, int, extended rationals with NaN and "
+            "+-inf): each mechanism class's constructor and randomise accept EXACTLY the documented ranges "
+            "(construct_ok_iff, randomise_ok_iff), hence every invalid parameter of the property's list is refused "
+            "(refuse_invalid, refuse_invalid_construct and one theorem per listed class of invalid value); accountant "
+            "check/spend/constructor-with-prior-spends refuse any invalid entry wherever it stands and record nothing. The "
+            "_check_* chains (flattened along the real MRO), the block order of _check_all/__init__ and `randomise starts "
+            "with _check_all` are regenerated from /repo's AST on every run and proved equal to the model "
+            "(DPL.Generated.C13Chains). Tied to the code by result-kind correspondence for every entry point x parameter x "
+            "catalogue value at construction, via attribute assignment, and after a first successful randomise; checked "
+            "directly (must raise, return nothing, record no spend, invoke no mechanism).",
+            "Trusted: Lean kernel; the chain extractor (harness/translate/chains.py); structured arguments (labels, utility "
+            "lists) abstracted to one flag per test; NaN in parameters the property does not list (Vector alpha, clip norm, "
+            "bounds) is reported, not counted.", "§6 C13"),
+    "C14": ("Lean 4 proof: decision table of check_random_state and provenance of every noise draw per entry point + rng-class "
+            "interposition and global-seed experiments",
+            "Machine-checked: the decision table of check_random_state(seed, secure); no mechanism ever holds numpy's global "
+            "generator; any depth of tool/sub-estimator nesting below random_state=None ends in the OS CSPRNG (a fresh "
+            "Generator for Staircase/Bingham only); for all 21 mechanisms, 15 tools, 8 models and covariance_eig every "
+            "noise-tagged draw is osCsprng/freshGenerator and none consumes the global generator (unseeded_noise_secure); "
+            "the pre-repair plumbing of quantile / forest seeds / empty leaves is proved to violate it. Tied to the code by "
+            "recording the class of the generator every mechanism instance actually holds for every entry point, and checked "
+            "black-box: two runs after np.random.seed(s); random.seed(s) must differ, and the global states are unchanged by "
+            "mechanisms and tools.",
+            "Trusted: Lean kernel; which draws are noise vs structural is a modelling decision (listed per entry point); "
+            "os.urandom / default_rng quality.", "§6 C14"),
     "C15": ("Lean 4 proof: schedule independence of the seed-before-parallel discipline, partition of the row subsets + "
             "repetition / fresh-interpreter / n_jobs experiments",
             "Machine-checked: for every number of tasks, generator, task behaviour and complete schedule the indexed result "
